@@ -108,6 +108,14 @@ class Check:
             # which theorem failed? first "error:" lines
             errs = [l for l in out.splitlines() if "error" in l][:12]
             self.broken.append(("proof_broken", "lake build " + self.cfg["module"], "\n".join(errs) or out[-2000:]))
+            if self.pid == "C19":
+                # the prover's own counterexample for the failing step, lifted to an input and run on the implementation
+                try:
+                    import c19_cex
+                    for f in c19_cex.lift(out):
+                        self.failures.append(f)
+                except Exception as e:
+                    self.cov["c19_counterexample_lift"] = "failed: %s" % e
             return False
         if self.tier == "thorough":
             rc, out, dt = lake(["env", "leanchecker", self.cfg["module"]])
